@@ -11,7 +11,7 @@ from . import c07
 from . import tr
 from .c10 import _as
 
-from .common import Guard  # noqa: E402
+from .common import Guard, only_reached_from  # noqa: E402
 
 PROP = 'C06'
 DECIDED = [
@@ -331,28 +331,66 @@ def r7(repo, run):
         run.ok('C06.R7', sb, 'SubBuilder.build: preprocess(); return StreamNode(self)')
 
 
+def _stage_origin(node, tags=frozenset()):
+    """where a value added to a stage list comes from, read off its canonical (substituted) expression:
+    'fresh' (a document of a yaml.parse made by this call, or a deep copy), 'stored' (state that outlives the call) or None"""
+    if isinstance(node, ast.Starred):
+        return _stage_origin(node.value, tags)
+    if isinstance(node, ast.Call):
+        f = norm(node.func)
+        if f in ('each', 'generated', 'list', 'tuple', 'iter', 'carried') and len(node.args) == 1:
+            return _stage_origin(node.args[0], tags)
+        if f in ('yaml.parse', 'parse'):
+            return 'fresh'
+        if f in ('copy.deepcopy', 'deepcopy'):
+            return 'fresh'
+        if f in ('filter',) and len(node.args) == 2:
+            return _stage_origin(node.args[1], tags)
+        if isinstance(node.func, ast.Attribute) and node.func.attr in ('get', 'setdefault', 'pop', 'copy') and _stage_origin(node.func.value, tags) == 'stored':
+            return 'stored'
+        return None
+    if isinstance(node, (ast.GeneratorExp, ast.ListComp)) and len(node.generators) == 1:
+        g = node.generators[0]
+        if isinstance(node.elt, ast.Name) and isinstance(g.target, ast.Name) and node.elt.id == g.target.id:
+            return _stage_origin(g.iter, tags)      # (d for d in <iter> if ...): a selection of the iterable's own elements
+        o = _stage_origin(node.elt, tags)
+        return o if o == 'fresh' else None
+    if isinstance(node, ast.Subscript):
+        return _stage_origin(node.value, tags)
+    if isinstance(node, ast.Attribute):
+        base = node
+        while isinstance(base, (ast.Attribute, ast.Subscript)):
+            base = base.value
+        if isinstance(base, ast.Name) and base.id in ('self', 'cls'):
+            return 'stored'
+        return _stage_origin(base, tags)
+    if isinstance(node, ast.Name) and 'free:%s' % node.id in tags:
+        return 'stored'       # a module-level object
+    return None
+
+
 def r8(repo, run):
     n = 0
     for fi in repo.all_functions(include_nested=False):
         if fi.cls is not None and fi.cls.name in ('Builder', 'SubBuilder') and fi.name in ('__init__', 'flatten', 'preprocess'):
             continue
-        for c in calls_in(fi.node):
-            if isinstance(c.func, ast.Attribute) and (norm(c.func.value) == 'self.stages' or norm(c.func.value).endswith('.stages')) and c.func.attr in ('append', 'extend', 'insert') and c.args:
-                n += 1
-                arg = c.args[-1]
-                fresh = False
-                if isinstance(arg, ast.Name):
-                    for p in parent_chain(c):
-                        if isinstance(p, ast.For) and norm(p.target) == arg.id and isinstance(p.iter, ast.Call) and norm(p.iter.func) in ('yaml.parse', 'parse'):
-                            fresh = True
-                if isinstance(arg, ast.Call) and norm(arg.func) in ('copy.deepcopy', 'deepcopy'):
-                    fresh = True
-                if isinstance(arg, (ast.GeneratorExp, ast.ListComp)) and isinstance(arg.elt, ast.Call) and norm(arg.elt.func) in ('copy.deepcopy', 'deepcopy'):
-                    fresh = True
-                if fresh:
-                    run.ok('C06.R8', (fi.file, c.lineno, fi.qualname), unparse(c), 'fresh parse result of this call / deep copy')
-                else:
-                    run.violation('C06.R8', fi, unparse(c), 'documents that were not parsed by this call are added as stages (cached / stored node objects): the same nodes end up under several include sites and merging one of them changes the others', node=c)
+        if not any(isinstance(c.func, ast.Attribute) and norm(c.func.value).endswith('stages') and c.func.attr in ('append', 'extend', 'insert') for c in calls_in(fi.node)):
+            continue
+        if only_reached_from(repo, fi.qualname, {'Builder.flatten', 'Builder.preprocess', 'Builder.__init__'}):
+            continue
+        seen = {}
+        for p in tr.paths_of(repo, fi, follow_exceptions=False):
+            for e in p.events:
+                if e.kind == 'call' and e.attr in ('append', 'extend', 'insert') and e.recv is not None and e.recv.text.endswith('.stages') and e.args:
+                    seen.setdefault((id(e.node), _stage_origin(e.args[-1].ast, e.args[-1].tags)), e)
+        for (_, origin), e in seen.items():
+            n += 1
+            if origin == 'fresh':
+                run.ok('C06.R8', tr.where(fi, e), norm(e.node)[:100], 'fresh parse result of this call / deep copy (%s)' % e.args[-1].text[:80])
+            elif origin == 'stored':
+                run.violation('C06.R8', fi, norm(e.node), 'documents that were not parsed by this call are added as stages (cached / stored node objects: %s): the same nodes end up under several include sites and merging one of them changes the others' % e.args[-1].text[:80], node=e.node)
+            else:
+                raise AnalysisError('C06.R8: origin of the stage added by %s in %s not recognised (%s)' % (norm(e.node)[:60], fi.qualname, e.args[-1].text[:80]))
     if n < 1:
         raise AnalysisError('C06.R8: no stage append found in Builder.add_source')
 
